@@ -114,3 +114,28 @@ def digest(state):
 
 def diff(a, b):
     return sorted(k for k in set(a) | set(b) if a.get(k) != b.get(k))
+
+
+_PRIMS = (bool, int, float, str, bytes, type(None))
+
+
+def shallow_digest():
+    """Cheap digest of the module-level state of ctparse.* (one level deep): used at every line event to find the points
+    at which a thread WRITES shared state.  Containers contribute identity, length and (when small) their printed contents;
+    scalars their value; other objects their identity (rebinding a global is a write, mutation inside a foreign object is not seen
+    here - the full fingerprint covers that at the end of each execution)."""
+    acc = []
+    for name in sorted(sys.modules):
+        if name == "ctparse" or name.startswith("ctparse."):
+            mod = sys.modules[name]
+            if mod is None:
+                continue
+            for k, v in vars(mod).items():
+                t = type(v)
+                if t in (list, dict, set, bytearray):
+                    acc.append((k, id(v), len(v), hash(repr(v)) if len(v) <= 32 else 0))
+                elif t in _PRIMS:
+                    acc.append((k, v))
+                else:
+                    acc.append((k, id(v)))
+    return hash(tuple(acc))
